@@ -8,89 +8,121 @@ UNITS = []
 AB = ['bounded: all request targets of length <= N over all 256 byte values (every structural combination of the 8 components '
       'fits into 8 bytes: "://:@:?#"); longer targets are covered by the contract units only',
       'every allocation may fail (--malloc-may-fail): HTP_ERROR paths are checked for safety and leaks, the partition claims are about HTP_OK',
+      'bstr_dup_mem / bstr_free are MODELLED in the bounded units (fixed-capacity allocation + byte copy, contracts/c13_uri.h C13_BSTR_MODEL): '
+      'symbolic-size heap objects make the propositional encoding explode; the real bstr_dup_mem is checked against the model by unit c13_dup_model_lemma',
+      'memchr: textbook model (CBMC 6.11 has none)',
       'KNOWN_F_C13_IPV6 (default on): targets with bytes between the "]" of an IP literal and the ":"/end of the authority are excluded from the '
       're-join and reference checks (predicate ipv6_junk_after_bracket in spec/uri_ref.h); safety/leak checks still cover them']
 
-REJOIN = r'''
-/* walk the target with the lengths of the reported components: that IS the re-join check */
-#define TAKE(b, what) do { size_t l_ = bstr_len(b); \
-    VASSERT(p + l_ <= n, what ": component lies inside the target"); \
-    if (p + l_ <= n) for (size_t i_ = 0; i_ < l_; i_++) VASSERT(bstr_ptr(b)[i_] == a[p + i_], what ": bytes are the target's bytes at the running offset (nothing invented)"); \
-    p += l_; } while (0)
-#define DELIM(c, what) do { VASSERT(p < n && a[p] == (c), what); p++; } while (0)
-static void c13_rejoin(const unsigned char *a, size_t la, const htp_uri_t *u) {
+# One case per input length: the input bstr is allocated with a CONSTANT size.  A symbolic-size input object makes the
+# pointer arithmetic of the splitter blow up in propositional reduction (29 GB at N=3).
+CASES = '  CASE(0)\n' + ''.join('#if N >= %d\n  CASE(%d)\n#endif\n' % (k, k) for k in range(1, 17))
+
+COMMON = r'''
+#define CB(b) ((const unsigned char *)(b) + sizeof(bstr))   /* bytes of an inline bstr (realptr == NULL asserted first) */
+static bstr *mk_input(const unsigned char *a, size_t la) {   /* la is a constant at every call site: heap object of exactly la bytes */
+  bstr *input = malloc(sizeof(bstr) + la);
+  if (input == NULL) return NULL;
+  input->len = la; input->size = la; input->realptr = NULL;
+  for (size_t i = 0; i < la; i++) ((unsigned char *) input + sizeof(bstr))[i] = a[i];
+  return input;
+}
+#define INPUT_UNCHANGED(input, a, la) do { \
+  VASSERT((input)->len == (la) && (input)->size == (la) && (input)->realptr == NULL, "the input's header is not modified"); \
+  for (size_t i_ = 0; i_ < (la); i_++) VASSERT(CB(input)[i_] == (a)[i_], "the input's bytes are not modified"); } while (0)
+/* copy of one reported component: taken once, so that every later check reads a local array */
+typedef struct { int has; size_t len; unsigned char b[N ? N : 1]; } comp_t;
+static void comp_get(const bstr *s, size_t la, comp_t *c) {
+  c->has = (s != NULL); c->len = 0;
+  if (s != NULL) {
+    VASSERT(s->realptr == NULL && s->len <= s->size, "component is a well-formed inline bstr");
+    VASSERT(s->len <= la, "component is not longer than the input");
+    c->len = s->len;
+    for (size_t i = 0; i < N; i++) if (i < s->len && i < la) c->b[i] = CB(s)[i];
+  }
+}
+'''
+
+PARSE_URI_H = COMMON + r'''
+/* walk the target with the LENGTHS of the reported components: that is the re-join check.  o[k] = running offset */
+#define TAKE(k, what) do { o[k] = p; VASSERT(p + c[k].len <= n, what ": component lies inside the target"); p += c[k].len; } while (0)
+#define DELIM(ch, what) do { VASSERT(p < n && a[p] == (ch), what); p++; } while (0)
+static void c13_rejoin(const unsigned char *a, size_t la, const comp_t *c, size_t *o) {
   size_t n = la; while (n > 0 && a[n - 1] == ' ') n--;
   size_t p = 0;
   if (n == 0) {
-    VASSERT(!u->scheme && !u->username && !u->password && !u->hostname && !u->port && !u->path && !u->query && !u->fragment, "empty target: no component");
+    for (int k = 0; k < RU_N; k++) VASSERT(!c[k].has, "empty target: no component");
     return;
   }
-  if (u->scheme) { TAKE(u->scheme, "scheme"); DELIM(':', "scheme is followed by ':'"); }
-  if (u->hostname) {
-    VASSERT(u->scheme != NULL, "authority only after a scheme");
+  if (c[RU_SCHEME].has) { TAKE(RU_SCHEME, "scheme"); DELIM(':', "scheme is followed by ':'"); }
+  if (c[RU_HOST].has) {
+    VASSERT(c[RU_SCHEME].has, "authority only after a scheme");
     DELIM('/', "authority is introduced by '//' (1)"); DELIM('/', "authority is introduced by '//' (2)");
-    if (u->username) {
-      TAKE(u->username, "user");
-      if (u->password) { DELIM(':', "user and password are separated by ':'"); TAKE(u->password, "password"); }
+    if (c[RU_USER].has) {
+      TAKE(RU_USER, "user");
+      if (c[RU_PASS].has) { DELIM(':', "user and password are separated by ':'"); TAKE(RU_PASS, "password"); }
       DELIM('@', "userinfo is followed by '@'");
-    } else VASSERT(u->password == NULL, "no password without user");
-    TAKE(u->hostname, "host");
-    if (u->port) { DELIM(':', "host and port are separated by ':'"); TAKE(u->port, "port"); }
-  } else VASSERT(!u->username && !u->password && !u->port, "no user/password/port without host");
-  VASSERT(u->path != NULL, "non-empty target always has a path component (possibly empty)");
-  if (u->path) TAKE(u->path, "path");
-  if (u->query) { DELIM('?', "query is introduced by '?'"); TAKE(u->query, "query"); }
-  if (u->fragment) { DELIM('#', "fragment is introduced by '#'"); TAKE(u->fragment, "fragment"); }
+    } else VASSERT(!c[RU_PASS].has, "no password without user");
+    TAKE(RU_HOST, "host");
+    if (c[RU_PORT].has) { DELIM(':', "host and port are separated by ':'"); TAKE(RU_PORT, "port"); }
+  } else VASSERT(!c[RU_USER].has && !c[RU_PASS].has && !c[RU_PORT].has, "no user/password/port without host");
+  VASSERT(c[RU_PATH].has, "a non-empty target always has a path component (possibly empty)");
+  if (c[RU_PATH].has) TAKE(RU_PATH, "path");
+  if (c[RU_QUERY].has) { DELIM('?', "query is introduced by '?'"); TAKE(RU_QUERY, "query"); }
+  if (c[RU_FRAG].has) { DELIM('#', "fragment is introduced by '#'"); TAKE(RU_FRAG, "fragment"); }
   VASSERT(p == n, "re-joining the components with their delimiters reproduces the target minus trailing spaces");
+  for (int k = 0; k < RU_N; k++)
+    if (c[k].has && o[k] + c[k].len <= n)
+      for (size_t i = 0; i < N; i++) if (i < c[k].len) VASSERT(c[k].b[i] == a[o[k] + i], "component bytes are the target's bytes at the running offset (nothing invented)");
 }
-'''
-
-REFCMP = r'''
-static void c13_refcmp(const unsigned char *a, size_t la, const htp_uri_t *u) {
-  ref_uri_t r; ref_uri_split(a, la, &r);
-  const bstr *c[RU_N] = { u->scheme, u->username, u->password, u->hostname, u->port, u->path, u->query, u->fragment };
+static void c13_refcmp(const unsigned char *a, size_t la, const comp_t *c, const size_t *o, const ref_uri_t *r) {
   for (int k = 0; k < RU_N; k++) {
-    VASSERT((c[k] != NULL) == (r.has[k] != 0), "component present iff the reference reports it");
-    if (c[k] != NULL && r.has[k]) {
-      VASSERT(bstr_len(c[k]) == r.len[k], "component length equals the reference");
-      if (bstr_len(c[k]) == r.len[k]) for (size_t i = 0; i < r.len[k]; i++) VASSERT(bstr_ptr(c[k])[i] == a[r.off[k] + i], "component bytes equal the reference range of the target");
+    VASSERT(c[k].has == (r->has[k] != 0), "component present iff the reference reports it");
+    if (c[k].has && r->has[k]) {
+      VASSERT(c[k].len == r->len[k], "component length equals the reference");
+      VASSERT(o[k] == r->off[k], "component offset (from the re-join walk) equals the reference");
     }
   }
 }
-'''
-
-PARSE_URI_H = REJOIN + REFCMP + r'''
-typedef struct { unsigned char a[N]; size_t la; } vin_t;
+typedef struct { unsigned char a[N ? N : 1]; size_t la; } vin_t;
+static void run(const unsigned char *a, size_t la) {
+  bstr *input = mk_input(a, la);
+  if (input == NULL) return;
+  htp_uri_t *u = PREALLOC ? htp_uri_alloc() : NULL;
+  if (!PREALLOC || u != NULL) {
+    int rc = htp_parse_uri(input, &u);
+    VASSERT(rc == HTP_OK || rc == HTP_ERROR, "htp_parse_uri returns OK or ERROR");
+    VASSERT(rc == HTP_ERROR || u != NULL, "OK => a uri structure exists");
+    INPUT_UNCHANGED(input, a, la);
+    if (rc == HTP_OK && u != NULL) {
+      comp_t c[RU_N]; size_t o[RU_N] = { 0, 0, 0, 0, 0, 0, 0, 0 };
+      comp_get(u->scheme, la, &c[RU_SCHEME]); comp_get(u->username, la, &c[RU_USER]); comp_get(u->password, la, &c[RU_PASS]);
+      comp_get(u->hostname, la, &c[RU_HOST]); comp_get(u->port, la, &c[RU_PORT]); comp_get(u->path, la, &c[RU_PATH]);
+      comp_get(u->query, la, &c[RU_QUERY]); comp_get(u->fragment, la, &c[RU_FRAG]);
+      if (la > 0 && a[0] == '/')
+        VASSERT(!c[RU_SCHEME].has && !c[RU_USER].has && !c[RU_PASS].has && !c[RU_HOST].has && !c[RU_PORT].has, "a target that starts with '/' has no scheme and no authority");
+      VASSERT(u->port_number == (PREALLOC ? -1 : 0), "the splitter itself never sets the numeric port");
+      ref_uri_t r; ref_uri_split(a, la, &r);
+#ifdef KNOWN_F_C13_IPV6
+      if (!r.junk_after_ipv6)      /* == ipv6_junk_after_bracket(a, la) */
+#endif
+      { c13_rejoin(a, la, c, o); c13_refcmp(a, la, c, o, &r); }
+    }
+  }
+  htp_uri_free(u);
+  free(input);
+}
+#define CASE(K) if (in.la == (K)) run(in.a, (K));
 void HARNESS(void) { VIN(vin_t);
   VASSUME(in.la <= N);
-  bstr *input = bstr_dup_mem(in.a, in.la);          /* heap object of exactly la bytes: over-reads are caught */
-  if (input != NULL) {
-    htp_uri_t *u = PREALLOC ? htp_uri_alloc() : NULL;
-    if (!PREALLOC || u != NULL) {
-      int rc = htp_parse_uri(input, &u);
-      VASSERT(rc == HTP_OK || rc == HTP_ERROR, "htp_parse_uri returns OK or ERROR");
-      VASSERT(rc == HTP_ERROR || u != NULL, "OK => a uri structure exists");
-      for (size_t i = 0; i < in.la; i++) VASSERT(bstr_ptr(input)[i] == in.a[i], "the target itself is not modified");
-      if (rc == HTP_OK && u != NULL) {
-        if (in.la > 0 && in.a[0] == '/')
-          VASSERT(!u->scheme && !u->username && !u->password && !u->hostname && !u->port, "a target that starts with '/' has no scheme and no authority");
-#ifdef KNOWN_F_C13_IPV6
-        if (!ipv6_junk_after_bracket(in.a, in.la))
-#endif
-        { c13_rejoin(in.a, in.la, u); c13_refcmp(in.a, in.la, u); }
-      }
-    }
-    htp_uri_free(u);
-    bstr_free(input);
-  }
-  CANARY(); }'''
+''' + CASES + r'''  CANARY(); }'''
 
 
 def parse_uri_unit(name, nq, nt, prealloc, thorough_only=False, timeout=(600, 3000)):
     UNITS.append(U(
-        name=name, props=['C13'], kind='bounded', src=['htp_util.c'], link=['bstr.c'], replay='vin',
-        contracts_inc=['uri_ref.h'], harness=PARSE_URI_H,
-        defs={'quick': {'N': nq, 'PREALLOC': prealloc}, 'thorough': {'N': nt}},
+        name=name, props=['C13'], kind='bounded', src=['htp_util.c'], replay='vin',
+        contracts_inc=['uri_ref.h', 'c13_uri.h'], harness=PARSE_URI_H,
+        defs={'quick': {'N': nq, 'PREALLOC': prealloc, 'C13_MEMCHR_MODEL': 1, 'C13_BSTR_MODEL': 1}, 'thorough': {'N': nt}},
         flags_add=['--unwind', str(max(nq, nt, 8) + 3), '--unwinding-assertions', '--memory-leak-check'],
         flags_del=['--unsigned-overflow-check'], thorough_only=thorough_only, timeout=timeout,
         bound='all targets of length <= N (quick N=%d, thorough N=%d), all byte values' % (nq, nt), assumes=AB,
@@ -98,4 +130,4 @@ def parse_uri_unit(name, nq, nt, prealloc, thorough_only=False, timeout=(600, 30
             "'/'-targets have no scheme/authority; every component equals the independent RFC 3986-style reference; no leak / over-read under any allocation failure"))
 
 
-parse_uri_unit('ref_parse_uri', 4, 9, 0, timeout=(120,3000))
+parse_uri_unit('ref_parse_uri', 5, 9, 0, timeout=(300, 3000))
